@@ -18,10 +18,15 @@ type scen struct {
 	n       int
 	pattern string
 	answer  string // type of the message that ends the silence
+	earlier int    // interval of an earlier logon on the same connection (ended by a Logout exchange), 0 = none
 }
 
 func (s scen) String() string {
-	return fmt.Sprintf("%s N=%d pattern=%s answer=%s", s.role, s.n, s.pattern, s.answer)
+	d := fmt.Sprintf("%s N=%d pattern=%s answer=%s", s.role, s.n, s.pattern, s.answer)
+	if s.earlier != 0 {
+		d += fmt.Sprintf(" second-logon-on-the-connection(first interval %d)", s.earlier)
+	}
+	return d
 }
 
 func period(n int) time.Duration {
@@ -61,9 +66,29 @@ func run(c *vk.Ctx, can *rig.Canary, sc scen, idx int) {
 	} else {
 		l = f.Links[0]
 	}
-	if !l.Logon(sc.role, sc.n, 5*time.Second) {
+	first := sc.n
+	if sc.earlier != 0 && sc.role == rig.Acceptor {
+		first = sc.earlier // an initiator offers its configured interval at every logon
+	}
+	if !l.Logon(sc.role, first, 5*time.Second) {
 		c.Inconclusive("no logon: " + desc)
 		return
+	}
+	var since time.Time
+	if sc.earlier != 0 {
+		// the peer logs out and logs on again on the same connection; the observation starts at the second logon
+		time.Sleep(200 * time.Millisecond)
+		at, ok := l.Relogon(sc.role, sc.n, 5*time.Second)
+		if !ok {
+			c.Inconclusive("second logon did not complete: " + desc)
+			return
+		}
+		since = at
+		c.Count("second_logons", 1)
+	}
+	frames := func() []rig.Frame {
+		fr, _ := l.Frames()
+		return rig.Since(fr, since)
 	}
 	slackNow := func() time.Duration { return 100*time.Millisecond + 3*can.Max() }
 	feed := func() time.Time {
@@ -93,22 +118,28 @@ func run(c *vk.Ctx, can *rig.Canary, sc scen, idx int) {
 		return false
 	}
 	patternName := sc.pattern
+	if sc.earlier != 0 {
+		patternName += fmt.Sprintf("@second-logon(first-interval-%d)", sc.earlier)
+	}
 	key := func(what string) string { return fmt.Sprintf("C09/%s/%s/N=%d/%s", what, sc.role, sc.n, patternName) }
 	// reference instant: the last inbound message (the peer's Logon)
 	lastIn := time.Now()
+	if sc.earlier != 0 {
+		lastIn = since
+	}
 	nontrivial := false
 	defer func() { c.Eval(vk.Hash64([]byte(desc)), nontrivial) }()
 
 	awaitTestRequest := func(since time.Time, nBefore int) (rig.Frame, bool) {
 		deadline := since.Add(T + T/10 + slackNow() + 200*time.Millisecond)
 		for time.Now().Before(deadline) {
-			fr, _ := l.Frames()
+			fr := frames()
 			if trs := testRequests(fr); len(trs) > nBefore {
 				return trs[nBefore], true
 			}
 			time.Sleep(5 * time.Millisecond)
 		}
-		fr, _ := l.Frames()
+		fr := frames()
 		if trs := testRequests(fr); len(trs) > nBefore {
 			return trs[nBefore], true
 		}
@@ -183,7 +214,7 @@ func run(c *vk.Ctx, can *rig.Canary, sc scen, idx int) {
 		}
 	case "ends-just-before-deadline":
 		time.Sleep(time.Until(lastIn.Add(T - 300*time.Millisecond)))
-		fr, _ := l.Frames()
+		fr := frames()
 		if overloaded() {
 			return
 		}
@@ -194,7 +225,7 @@ func run(c *vk.Ctx, can *rig.Canary, sc scen, idx int) {
 		nontrivial = true
 		// the message restarts the period: nothing for another T-0.3
 		time.Sleep(time.Until(t1.Add(T - 300*time.Millisecond)))
-		fr, _ = l.Frames()
+		fr = frames()
 		if overloaded() {
 			return
 		}
@@ -258,7 +289,7 @@ func run(c *vk.Ctx, can *rig.Canary, sc scen, idx int) {
 			feed()
 		}
 		nontrivial = true
-		fr, _ := l.Frames()
+		fr := frames()
 		if overloaded() {
 			return
 		}
@@ -277,7 +308,7 @@ func run(c *vk.Ctx, can *rig.Canary, sc scen, idx int) {
 
 func main() {
 	c := vk.Init("C09")
-	c.Rule("full-stack sessions, both roles, N in {1,2} (quick) + {5,20,40} (thorough; N=40 exercises the N/20 branch), T = N + max(1,N/20); inbound patterns: total silence; a second message T/20 after the Logon and then silence (measured from that message); silence ending 0.3 s before the deadline; a message (Heartbeat / application / unknown type / TestRequest) arriving 2%, 10%, 50%, 85% into the second period; steady traffic with period 0.95 N for 12 periods. Oracle: silence => TestRequest within T + T/10 + slack of the last inbound message (and not before T), then EventDisconnect, OnStopped/OnDisconnect, net.Conn.Close (and Serve return) within T + T/10 + slack of the TestRequest (and not before T); an inbound message of any type in the second period finds the session connected, buys another period, and renewed silence is probed again with a second TestRequest before any disconnect; live peers see no TestRequest and no disconnect. slack = 100 ms + 3 x measured scheduler oversleep. distinct = (role, N, pattern, answer type); non-trivial = a timer expiry or a cancelled expiry was observed")
+	c.Rule("full-stack sessions, both roles, N in {1,2} (quick) + {5,20,40} (thorough; N=40 exercises the N/20 branch), T = N + max(1,N/20); inbound patterns: total silence; a second message T/20 after the Logon and then silence (measured from that message); silence ending 0.3 s before the deadline; a message (Heartbeat / application / unknown type / TestRequest) arriving 2%, 10%, 50%, 85% into the second period; steady traffic with period 0.95 N for 12 periods; plus sessions that log on a second time on the same connection after a Logout exchange (acceptor: first interval 1 then 2, 2 then 1, 1 then 1; initiator: same interval), observed from the second logon with the patterns total silence / answer at 50% / steady traffic. Oracle: silence => TestRequest within T + T/10 + slack of the last inbound message (and not before T), then EventDisconnect, OnStopped/OnDisconnect, net.Conn.Close (and Serve return) within T + T/10 + slack of the TestRequest (and not before T); an inbound message of any type in the second period finds the session connected, buys another period, and renewed silence is probed again with a second TestRequest before any disconnect; live peers see no TestRequest and no disconnect. slack = 100 ms + 3 x measured scheduler oversleep. distinct = (role, N, pattern, answer type); non-trivial = a timer expiry or a cancelled expiry was observed")
 	c.Assume("reference instant of an inbound message = the moment it was handed to the scripted connection (the library's Read returns it within microseconds)")
 	can := rig.StartCanary()
 	defer can.Stop()
@@ -296,11 +327,23 @@ func main() {
 				}
 				if c.Thorough() && p != "total-silence" && p != "steady-traffic" && p != "second-message-then-silence" {
 					for _, a := range answers {
-						scs = append(scs, scen{role, n, p, a})
+						scs = append(scs, scen{role, n, p, a, 0})
 					}
 					continue
 				}
-				scs = append(scs, scen{role, n, p, answers[k%len(answers)]})
+				scs = append(scs, scen{role, n, p, answers[k%len(answers)], 0})
+				k++
+			}
+		}
+	}
+	// a second logon on the same connection after a Logout exchange: the new interval applies, one probe period at a time
+	for _, role := range []rig.Role{rig.Acceptor, rig.Initiator} {
+		for _, pair := range [][2]int{{1, 2}, {2, 1}, {1, 1}} {
+			if role == rig.Initiator && pair[0] != pair[1] {
+				continue
+			}
+			for _, p := range []string{"total-silence", "answer-50%", "steady-traffic"} {
+				scs = append(scs, scen{role, pair[1], p, answers[k%len(answers)], pair[0]})
 				k++
 			}
 		}
